@@ -1386,6 +1386,8 @@ func (client *client) pollInflights() (cont bool, err error) {
 			client.pl.markUsedLocked(id)
 			client.write(gmqtt.MessageToPublish(m.Message, client.version))
 		case *queue.Pubrel:
+			// the identifier stays in use until PUBCOMP: do not hand it to a new message
+			client.pl.markUsedLocked(id)
 			client.write(&packets.Pubrel{PacketID: id})
 		}
 	}
